@@ -25,6 +25,9 @@ func runC04(c *Ctx) {
 	ruleWatch(c, p, roles, "C04")
 	ruleDiscard(c, p, roles)
 	ruleWriterInvariant(c, p, "C04.writer")
+	rulePacketRead(c, p, "C04.packet-read")
+	ruleCloseMarks(c, p, "C04.close-marks")
+	rulePacketDeadline(c, p, "C04.deadline")
 	_ = cfg
 	c.R.Assumptions = append(c.R.Assumptions,
 		"errgroup cancels the shared context when a goroutine returns a non-nil error (x/sync contract)",
@@ -600,5 +603,68 @@ func ruleDiscard(c *Ctx, p *core.Program, r *doRoles) {
 		c.R.Bad(rule, core.FuncName(r.Do), cfg, p.Pos(w[0].At.Pos()), "Do returns the error of g.Wait() without closing the client or discarding the writer's pending output: bytes encoded for the failed query are sent in front of the next request")
 	} else {
 		c.R.Ok(rule, core.FuncName(r.Do), cfg, p.Pos(r.Wait.Pos()), "failed Wait() is followed by Close or discard on every path")
+	}
+}
+
+// ruleCloseMarks: Client.Close marks the client closed on every path that touched the transport.
+func ruleCloseMarks(c *Ctx, p *core.Program, rule string) {
+	c.R.Rule(rule, "Client.Close: no exit is reachable from the call of conn.Close() without the store closed = true having been executed (before or after it): when closing the transport reports an error (TLS close_notify on a dead link) the client must still count as closed, or later calls pass the IsClosed guard and use the dead connection, and a pool returns it to the idle set")
+	cfg := p.Cfg.Name
+	cl := p.Method(core.PkgCh, "Client", "Close")
+	if !c.must(p, "(*ch.Client).Close", cl != nil) {
+		return
+	}
+	isMark := func(in ssa.Instruction) bool {
+		st, ok := in.(*ssa.Store)
+		if !ok {
+			return false
+		}
+		fa, ok := st.Addr.(*ssa.FieldAddr)
+		if !ok {
+			return false
+		}
+		f, ok := clientFieldAddr(fa)
+		if !ok || f != "closed" {
+			return false
+		}
+		k, isC := st.Val.(*ssa.Const)
+		return isC && k.Value != nil && k.Value.String() == "true"
+	}
+	isConnClose := func(in ssa.Instruction) bool {
+		call, ok := in.(ssa.CallInstruction)
+		if !ok {
+			return false
+		}
+		cc := call.Common()
+		return cc.IsInvoke() && cc.Method.Name() == "Close" && core.IsNamed(cc.Value.Type(), "net", "Conn")
+	}
+	// conn.Close() calls reachable without the mark
+	unmarked := core.ReachAvoiding(core.Entry(cl), isConnClose, isMark, nil)
+	n := 0
+	for _, b := range cl.Blocks {
+		for _, in := range b.Instrs {
+			if isConnClose(in) {
+				n++
+			}
+		}
+	}
+	if n == 0 {
+		c.R.Bad(rule, "Close", cfg, p.Pos(cl.Pos()), "Client.Close never closes the connection")
+		return
+	}
+	bad := false
+	for _, w := range unmarked {
+		hits := core.ReachAvoiding(core.PointOf(w.At), func(in ssa.Instruction) bool {
+			_, ok := in.(*ssa.Return)
+			return ok && in.Block().Comment != "recover"
+		}, isMark, nil)
+		if len(hits) > 0 {
+			bad = true
+			c.R.Bad(rule, "Close", cfg, p.Pos(hits[0].At.Pos()), "Close can return after conn.Close() without having set closed = true (the error path of conn.Close leaves the client marked open)")
+			break
+		}
+	}
+	if !bad {
+		c.R.Ok(rule, "Close", cfg, p.Pos(cl.Pos()), "closed = true on every path through conn.Close()")
 	}
 }
